@@ -38,6 +38,7 @@ def run(ctx):
     vlib.mc_check(ctx, "StorageProto", "StorageProto_negS2.cfg", expect_violation="CrashSafe", timeout=120, workers=2)
     vlib.mc_check(ctx, "StorageProto", "StorageProto_negS9.cfg", expect_violation="CrashSafe", timeout=120, workers=2)
     vlib.mc_check(ctx, "StorageProto", "StorageProto_negF1.cfg", expect_violation="CrashDurable", timeout=120, workers=2)
+    vlib.mc_check(ctx, "StorageProto", "StorageProto_negF43.cfg", expect_violation="NoCommitLost", timeout=120, workers=2)
 
     # T: storage traces of real runs, every crash point
     ev = sc.record_histories(ctx, "fixed", sc.fixed_histories())
